@@ -115,6 +115,30 @@ var c01Soup = &vlib.Check{
 	},
 }
 
+// c01LongLines: an error on a (last) line longer than the 200-byte quote limit, made of arbitrary bytes, with or without a
+// final line break.
+var c01LongLines = &vlib.Check{
+	Prop: "C01", Name: "long-lines", Quick: 3000, Thorough: 120000,
+	Oracle: vlib.IsoOracle, Inner: c01Inner, Classify: c01Classify,
+	Gen: func(t *rapid.T) *vlib.Case {
+		r := vlib.RapidRnd{T: t}
+		var sb strings.Builder
+		sb.WriteString(vlib.Pick(r, []string{"", "JSIGHT 0.3\n", "JSIGHT 0.3\nGET /a // ", "JSIGHT 0.3\nTYPE @a\n  ", "JSIGHT 0.3\n# ", "x"}))
+		n := 150 + r.Intn(200)
+		fill := vlib.Pick(r, []string{"\xbf", "\xa0", "\x80\xbf", "é", "a", " ", "\xff", "ab\xa0", "\t"})
+		for sb.Len() < n {
+			sb.WriteString(fill)
+		}
+		if vlib.Chance(r, 1, 3) {
+			sb.WriteString(vlib.Pick(r, soupKeywords))
+		}
+		if vlib.Chance(r, 1, 3) {
+			sb.WriteString(vlib.Pick(r, []string{"\n", "\r\n", "\r", "\n\n"}))
+		}
+		return &vlib.Case{Project: vlib.SingleFile([]byte(sb.String()))}
+	},
+}
+
 var c01Macro = &vlib.Check{
 	Prop: "C01", Name: "macro-graph", Quick: 3000, Thorough: 160000,
 	Oracle: vlib.IsoOracle, Inner: c01Inner,
@@ -224,7 +248,7 @@ var c01Prefix = &vlib.Check{
 	Oracle: vlib.IsoOracle, Inner: c01Inner, Classify: c01Classify,
 }
 
-func init() { vlib.Register(c01Mut, c01Soup, c01Macro, c01Include, c01Roots, c01Prefix) }
+func init() { vlib.Register(c01Mut, c01Soup, c01Macro, c01Include, c01Roots, c01Prefix, c01LongLines) }
 
 func TestC01(t *testing.T) {
 	ev := vlib.Ev("C01")
@@ -338,6 +362,7 @@ func TestC01(t *testing.T) {
 	t.Run("soup", c01Soup.Run)
 	t.Run("macro-graph", c01Macro.Run)
 	t.Run("include-graph", c01Include.Run)
+	t.Run("long-lines", c01LongLines.Run)
 	if vlib.SharedIsoStarted() {
 		ev.Note("shard %d isolated worker: %s", vlib.Shard(), vlib.SharedIso().Stats())
 	}
